@@ -9,8 +9,8 @@ The tag is a plain memory of 16-octet blocks (`Bytes`, block `b` at octets
 Modelled reader-side failures: `struct.error` for a block number > 65535
 (`pack("<H", bn)`), `ValueError` for a command frame longer than 255 octets
 (`bytearray([2+len(idm)+len(cmd_data), ...])`, tt3.py:697), `ValueError` of
-`range(1, last, 0)`, `TypeError` when the attribute block cannot be read
-before a write.  The tag answers a block number outside its memory with
+`range(1, last, 0)`; when the attribute block cannot be read before a write the
+command error of that read is raised.  The tag answers a block number outside its memory with
 status `01 A2` (-> `Type3TagCommandError`).
 -/
 namespace NfcVerif.T3
@@ -157,9 +157,8 @@ def planWrite (a : Attr) (data : Bytes) : List WCmd :=
 /-- `Type3Tag.NDEF._write_ndef_data` -/
 def writeNdef (m data : Bytes) : Trace :=
   match readBlocks m 0 1 >>= decodeAttr with
-  | .error (.tagCmd _) => ⟨[], m, .error .type_⟩
-  | .ok none => ⟨[], m, .error .type_⟩
-  | .error e => ⟨[], m, .error e⟩
+  | .ok none => ⟨[], m, .error (.tagCmd 4)⟩     -- checksum error: Type3TagCommandError(DATA_SIZE_ERROR)
+  | .error e => ⟨[], m, .error e⟩               -- the command error of the attribute read is raised
   | .ok (some a) =>
     if a.nbw = 0 then
       let t := runW m [⟨0, 1, encodeAttr { a with writef := 0x0F }⟩]
